@@ -419,6 +419,41 @@ impl Ty {
         }
     }
 
+    /// Whether `==` and `!=` can be used on two values of this type.
+    ///
+    /// Aggregates are compared component by component,
+    /// so all of their components have to be comparable too.
+    ///
+    /// This has to be consistent with `compile_complex_compare` in codegen
+    pub fn is_comparable(&self) -> bool {
+        match self.absolute_ty() {
+            Ty::Any
+            | Ty::RawPtr { .. }
+            | Ty::RawSlice
+            | Ty::Unknown
+            | Ty::ConcreteFunction { .. }
+            | Ty::FunctionPointer { .. } => false,
+            Ty::AnonArray { sub_ty, .. }
+            | Ty::ConcreteArray { sub_ty, .. }
+            | Ty::Slice { sub_ty }
+            | Ty::Optional { sub_ty } => sub_ty.is_unknown() || sub_ty.is_comparable(),
+            Ty::ErrorUnion {
+                error_ty,
+                payload_ty,
+            } => {
+                (error_ty.is_unknown() || error_ty.is_comparable())
+                    && (payload_ty.is_unknown() || payload_ty.is_comparable())
+            }
+            Ty::AnonStruct { members } | Ty::ConcreteStruct { members, .. } => members
+                .iter()
+                .all(|MemberTy { ty, .. }| ty.is_unknown() || ty.is_comparable()),
+            Ty::Enum { variants, .. } => variants
+                .iter()
+                .all(|variant| variant.is_unknown() || variant.is_comparable()),
+            _ => true,
+        }
+    }
+
     pub fn can_have_a_name(&self) -> bool {
         matches!(
             self,
@@ -2089,19 +2124,7 @@ impl TypedOp for BinaryOp {
                     Ty::IInt(_) | Ty::UInt(_) | Ty::Float(_) | Ty::Bool
                 )
             }
-            BinaryOp::Eq | BinaryOp::Ne => {
-                // TODO: allow comparing aggregates
-                // todo: make sure this is consistent with codegen
-                !matches!(
-                    found.absolute_ty(),
-                    Ty::Any
-                        | Ty::RawPtr { .. }
-                        | Ty::RawSlice
-                        | Ty::Unknown
-                        | Ty::ConcreteFunction { .. }
-                        | Ty::FunctionPointer { .. }
-                )
-            }
+            BinaryOp::Eq | BinaryOp::Ne => found.is_comparable(),
             BinaryOp::LAnd | BinaryOp::LOr => *found.absolute_ty() == Ty::Bool,
         }
     }
